@@ -161,6 +161,19 @@ class Check:
                 known_hits.append((k, lst))
             else:
                 violations.append((site, lst))
+        # a rule whose frozen local name vanished from a function cannot judge that function: its failures there are `idiom not recognised`
+        try:
+            from .match import MISSING_LOCALS
+            lost = {q for q, name in MISSING_LOCALS}
+        except Exception:
+            lost = set()
+        if lost and violations:
+            kept = []
+            for site, lst in violations:
+                if lst[0]['function'] in lost and not lst[0].get('exact'):
+                    continue     # the analysis-broken line for the missing local is already recorded
+                kept.append((site, lst))
+            violations = kept
         # a shape rule that fails on code which was restructured since the rule's idioms were confirmed is `idiom not recognised`, not a violation
         if violations and any(not lst[0].get('exact') for site, lst in violations):
             total, changed, unknown = self.scope_distance()
